@@ -208,4 +208,16 @@ def Mapping.map (m : Mapping) (pos : Int) (assoc : Int := 1) : Option Int :=
     (if m.to ≤ m.maps.length then some (m.mapPlain pos assoc) else none)
   else (m.mapResult pos assoc).map (·.pos)
 
+/-- The mapping the code builds when a history `ms` is undone in place:
+    `mp = Mapping(); for m in ms: mp.append_map(m);`
+    `for i in reversed(range(len(ms))): mp.append_map(ms[i].invert(), i)`.
+    The second loop runs over the pairs `(ms[i], i)` in reverse order; every inverse is
+    registered as the mirror of the map it undoes, through `append_map`/`set_mirror` themselves,
+    so `maps`, `mirror`, `from_` and `to` are exactly what the code produces
+    (`maps = ms ++ reverse(ms).map invert`, `mirror = [k, k-1, k+1, k-2, …, 2k-1, 0]`,
+    `from_ = 0`, `to = 2k`). -/
+def palindrome (ms : List StepMap) : Mapping :=
+  let mp := ms.foldl (fun acc m => acc.appendMap m) ({} : Mapping)
+  ms.zipIdx.reverse.foldl (fun acc mi => acc.appendMap mi.1.invert (some mi.2)) mp
+
 end PM
